@@ -2,6 +2,9 @@ package scen
 
 import (
 	"bytes"
+	"encoding/base64"
+
+	"github.com/cosmos/btcutil/base58"
 	gogotypes "github.com/cosmos/gogoproto/types"
 	"time"
 
@@ -409,7 +412,29 @@ func Queries() Spec {
 	}
 	// rows as a hand-written genesis may spell them: zero amounts absent (a retirement without any cancellation
 	// leaves the cancelled amount absent next to a present retired amount)
-	sparse := GenesisSeed("genesis-with-absent-zero-amounts", append(PreparedActions(), Retire(C, B2, "0.5")), DropZeroAmounts)
+	// ... a project whose id is not the prefix of its batches' denoms (the validation checks formats and keys only; the
+	// repository's own genesis test imports such rows), and DATA rows no message could write today: an anchored and
+	// attested IRI with a 16-byte digest, one with a one-letter extension (ParseIRI accepts both)
+	legacy := func(payload []byte, ext string) string {
+		return "regen:" + base58.CheckEncode(payload, 0) + "." + ext
+	}
+	iri16 := legacy(append([]byte{data.IriPrefixRaw, 1}, bytes.Repeat([]byte{0x5a}, 16)...), "bin")
+	iri1 := legacy(append([]byte{data.IriPrefixRaw, 1}, bytes.Repeat([]byte{0x5b}, 32)...), "z")
+	sparse := GenesisSeedWithData("genesis-with-absent-zero-amounts+renamed-project+legacy-data", append(PreparedActions(), Retire(C, B2, "0.5")), func(d GenDoc) {
+		DropZeroAmounts(d)
+		lead, rows := genRows(d, "regen.ecocredit.v1.Project")
+		for _, r := range rows {
+			if r["id"] == "C01-001" {
+				r["id"] = "C01-077"
+			}
+		}
+		genStore(d, "regen.ecocredit.v1.Project", lead, rows)
+	}, func(d GenDoc) {
+		b64 := base64.StdEncoding.EncodeToString
+		d.Set("regen.data.v1.DataID", []map[string]string{{"id": b64([]byte{0xde, 0xad, 1}), "iri": iri16}, {"id": b64([]byte{0xde, 0xad, 2}), "iri": iri1}})
+		d.Set("regen.data.v1.DataAnchor", []map[string]string{{"id": b64([]byte{0xde, 0xad, 1}), "timestamp": "2021-05-06T07:08:09Z"}, {"id": b64([]byte{0xde, 0xad, 2}), "timestamp": "2021-05-06T07:08:10Z"}})
+		d.Set("regen.data.v1.DataAttestor", []map[string]string{{"id": b64([]byte{0xde, 0xad, 1}), "attestor": b64(B), "timestamp": "2021-06-07T08:09:10Z"}})
+	})
 	return Spec{Name: "queries", Seeds: []explore.Seed{prepared, fresh, prefix, weak, sparse}, Events: evs,
 		DepthQuick: 3, DepthThor: 4, ExpectFail: exp, MinStates: 40}
 }
